@@ -200,6 +200,48 @@ def run(rep, facts, tier):
                                 why = term_str(cond)[:120]
         rep.check(ok, 'R12.2', 'handle_writer_submessage/liveness-guard', 'guarded only by the SPDP writer/reader entity-id equalities',
                   'the liveness notification is additionally guarded by %s' % why, hw.where(sb))
+        # ... and with the right polarity: sent exactly when both equalities hold (decision table; mutation triage: `==` -> `!=` and `&&` -> `||` survived the guard rule)
+        from rdv import boolform
+        ogp = Origins(hw, summaries=False)
+
+        def lv_namer(t, og_, bb):
+            cr = callee_res(t)
+            last = cr.rsplit('::', 1)[-1]
+            if last in ('eq', 'ne') and len(t['args']) == 2:
+                txt = ' '.join(term_str(og_.of_operand(x, bb, 'term')) for x in t['args'])
+                if 'SPDP_BUILTIN_PARTICIPANT_WRITER' in txt:
+                    return last + ':writer'
+                if 'SPDP_BUILTIN_PARTICIPANT_READER' in txt:
+                    return last + ':reader'
+            return None
+        firsts = [bb for bb, t in hw.calls() if (lv_namer(t, ogp, bb) or '').endswith(':writer') and P.can_reach((bb, 'term'), (sb, 'term'))]
+        okp = len(firsts) == 1
+        whyp = 'no comparison with SPDP_BUILTIN_PARTICIPANT_WRITER in front of the send'
+        if okp:
+            fb = firsts[0]
+            # where control goes when the notification is skipped: the successor of the first test from which the send is unreachable
+            nxt = hw.blocks[fb]['term'].get('target')
+            outs = [t2 for s2, t2, c2, l2 in switch_edges(hw, fx, ogp) if s2 == nxt and not P.can_reach((t2, 0), (sb, 'term')) and (t2, 0) != P.norm((sb, 'term'))]
+            if len(outs) != 1:
+                okp = False
+                whyp = 'shape of the test'
+            else:
+                T = boolform.table(hw, fx, lv_namer, None, start=fb, stop_blocks={sb: 'sent', outs[0]: 'skipped'})
+                import itertools
+                bad = []
+                for vals in itertools.product((False, True), repeat=len(T.atoms)):
+                    assign = dict(zip(T.atoms, vals))
+                    tr = {k.split(':')[1]: (v if k.startswith('eq') else not v) for k, v in assign.items()}
+                    want = 'sent' if tr.get('writer') and tr.get('reader') else 'skipped'
+                    got = T.eval(assign)
+                    if got != want:
+                        bad.append('writer is SPDP=%s reader is SPDP=%s -> %s' % (tr.get('writer'), tr.get('reader'), got))
+                if bad or len(T.atoms) != 2:
+                    okp = False
+                    whyp = '; '.join(bad[:2]) or 'tests found: %s' % T.atoms
+        rep.check(okp, 'R12.2', 'handle_writer_submessage/liveness-iff-spdp', 'sent <=> writer is the SPDP writer AND reader is the SPDP reader (4 assignments)',
+                  'the liveness notification is not sent exactly for SPDP DATA (%s): a participant whose repeated announcements are dropped as duplicates is no longer kept alive, '
+                  'or any DATA counts as a life sign of the participant' % whyp, hw.where(sb))
     # receiver side: drained until empty
     ev = fx.find('discovery::discovery::Discovery::discovery_event_loop')
     rep.analysed(ev)
@@ -347,6 +389,7 @@ def run(rep, facts, tier):
     rule_12_6(rep, fx)
     rule_move_all(rep, fx, 'R12.7')
     rule_12_8(rep, fx)
+    rule_rediscovery(rep, fx)
 
 
 PER_PARTICIPANT_STORES = ('participant_proxies', 'participant_last_life_signs', 'external_topic_readers', 'external_topic_writers',
@@ -504,3 +547,89 @@ def rule_12_8(rep, fx):
     rep.check(ok, 'R12.8', 'update_participant/stores-latest', 'participant_proxies.insert(guid.prefix, data.clone()) on every accepting path',
               'update_participant does not overwrite the stored proxy with the announced data on every accepting path (inserts: %d, non-overwriting forms: %s): the participant keeps '
               'being judged by the lease of an earlier announcement - dropped while alive after it lengthened its lease, kept after it shortened it' % (len(ins), weak), up.where())
+
+
+def rule_rediscovery(rep, fx):
+    """A participant whose lease ran out is remembered in the attic; when it comes back, Discovery has to treat it as new so that its endpoints are matched again."""
+    from rdv import boolform
+    import itertools
+    rep.rule('R12.9', 'rediscovery is noticed and acted upon: for the participant GUID of another participant update_participant returns true exactly when its prefix is not in '
+                      'participant_proxies (decision table over the tests on entity id, own GUID and contains_key; all assignments, the answers for a malformed GUID and for this '
+                      'participant itself left open); on that answer Discovery reports '
+                      'ParticipantDiscovered and replays the subscriptions and publications known for that prefix (handle_subscription_reader / handle_publication_reader(Some(prefix))) '
+                      'on every path')
+    up = fx.find('discovery::discovery_db::DiscoveryDB::update_participant')
+
+    def namer(t, og, bb):
+        cr = callee_res(t)
+        last = cr.rsplit('::', 1)[-1]
+        if last in ('eq', 'ne') and len(t['args']) == 2:
+            txt = ' '.join(term_str(og.of_operand(x, bb, 'term')) for x in t['args'])
+            if 'EntityId::PARTICIPANT' in txt and 'entity_id' in txt:
+                return last + ':is_participant'
+            if 'my_guid' in txt and 'participant_guid' in txt:
+                return last + ':self'
+        if last == 'contains_key' and has_field(og.of_operand(t['args'][0], bb, 'term'), 'participant_proxies'):
+            return 'known'
+        return None
+    T = boolform.table(up, fx, namer, None, max_paths=20000)
+
+    def truth(assign, name):
+        for k, v in assign.items():
+            if k == name:
+                return v
+            if ':' in k and k.split(':', 1)[1] == name:
+                return v if k.startswith('eq') else (not v)
+        return None
+    names = {a.split(':')[-1] for a in T.atoms}
+    bad = []
+    if names != {'is_participant', 'self', 'known'}:
+        bad.append('tests found: %s' % sorted(names))
+    else:
+        for vals in itertools.product((False, True), repeat=len(T.atoms)):
+            assign = dict(zip(T.atoms, vals))
+            isp, me, kn = truth(assign, 'is_participant'), truth(assign, 'self'), truth(assign, 'known')
+            want = bool(isp and not kn and not me)
+            got = T.eval(assign)
+            if not isp or me:
+                continue        # what is answered for a malformed GUID or for this participant itself does not matter to the lease mechanism
+            if got != want:
+                bad.append('participant GUID=%s known=%s self=%s -> %s' % (isp, kn, me, got))
+    rep.check(not bad, 'R12.9', 'update_participant/was-new', 'another participant: true <=> prefix unknown (8 assignments, 6 left open)',
+              'update_participant does not answer "previously unknown" exactly for a participant it did not have (%s): a participant that returns after its lease ran out is not '
+              'matched again, or every announcement is taken for a new participant' % '; '.join(bad[:3]), up.where())
+    # the caller
+    d = None
+    for b in fx.bodies:
+        if b.key.startswith('discovery::discovery::Discovery::') and b.kind in ('fn', 'assoc_fn') and any(call_matches(t, 'DiscoveryDB::update_participant') for _, t in b.calls()):
+            ogb = Origins(b, summaries=False)
+            if any(cond[0] == 'call' and cond[1].endswith('update_participant') for s_, t_, cond, lab in switch_edges(b, fx, ogb)):
+                d = b
+    if d is None:
+        rep.check(False, 'R12.9', 'Discovery/new-participant-replayed', 'the answer of update_participant is acted upon',
+                  'no function of Discovery tests what update_participant answers for a received announcement: a returning participant is never matched again', up.where())
+        return
+    rep.analysed(d)
+    og = Origins(d, summaries=False)
+    P = Pos(d)
+    edges = list(switch_edges(d, fx, og))
+    new_e = [(s_, t_) for s_, t_, cond, lab in edges if lab is True and cond[0] == 'call' and cond[1].endswith('update_participant')]
+    ok = len(new_e) == 1
+    why = 'the answer of update_participant is not tested'
+    if ok:
+        for what in ('Discovery::handle_subscription_reader', 'Discovery::handle_publication_reader', 'Discovery::send_participant_status'):
+            sites = []
+            for bb, t in d.calls():
+                if call_matches(t, what):
+                    if what.endswith('send_participant_status'):
+                        good = term_has(og.of_operand(t['args'][1], bb, 'term'), lambda x: x[0] == 'agg' and str(x[1]).endswith('ParticipantDiscovered'))
+                    else:
+                        a = og.of_operand(t['args'][1], bb, 'term')
+                        good = a[0] == 'agg' and str(a[1]).endswith('Option::Some') and term_has(a, lambda x: x[0] == 'field' and x[1] == 'prefix') and term_has(a, lambda x: x[0] == 'field' and x[1] == 'participant_guid')
+                    if good:
+                        sites.append((bb, 'term'))
+            if not sites or any(P.can_reach((new_e[0][1], 0), (r, 'term'), avoid_pos=sites) for r in d.return_blocks()):
+                ok = False
+                why = 'a path for a new participant skips %s' % what.rsplit('::', 1)[-1]
+    rep.check(ok, 'R12.9', '%s/new-participant-replayed' % d.key.rsplit('::', 1)[-1], 'was new => ParticipantDiscovered reported, subscriptions and publications of that prefix replayed',
+              'Discovery does not act on a new (or returning) participant on every path (%s): endpoints restored from the attic are never matched with the local ones' % why, d.where())
